@@ -309,9 +309,13 @@ impl LunarMonth {
   pub fn from_ym(year: isize, month: isize) -> Self {
     let key: String = format!("{}_{}", year, month);
     let cached: Option<Vec<f64>> = LUNAR_MONTH_CACHE.lock().unwrap().get(&key).cloned();
+    #[cfg(feature = "verif")]
+    verif::note_lookup(cached.is_some());
     match cached {
       Some(v) => Self::from_cache(v),
       None => {
+        #[cfg(feature = "verif")]
+        verif::cache_gap();
         // 在锁外构造，非法参数引发的panic不会毒化缓存锁
         let instance: Self = Self::new(year, month).unwrap();
         let mut l: Vec<f64> = Vec::new();
@@ -1163,6 +1167,79 @@ impl PartialEq for LunarHour {
 }
 
 impl Eq for LunarHour {}
+
+/// verification hooks (cargo feature `verif`, off by default)
+#[cfg(feature = "verif")]
+pub mod verif {
+  use std::sync::atomic::{AtomicU64, AtomicUsize, Ordering};
+  use crate::tyme::eightchar::provider::{DefaultEightCharProvider, LunarSect2EightCharProvider};
+  use super::{EIGHT_CHAR_PROVIDER, LUNAR_MONTH_CACHE};
+
+  static HITS: AtomicU64 = AtomicU64::new(0);
+  static MISSES: AtomicU64 = AtomicU64::new(0);
+  static GAP_YIELDS: AtomicUsize = AtomicUsize::new(0);
+
+  pub(super) fn note_lookup(hit: bool) {
+    if hit {
+      HITS.fetch_add(1, Ordering::Relaxed);
+    } else {
+      MISSES.fetch_add(1, Ordering::Relaxed);
+    }
+  }
+
+  pub(super) fn cache_gap() {
+    for _ in 0..GAP_YIELDS.load(Ordering::Relaxed) {
+      std::thread::yield_now();
+    }
+  }
+
+  /// number of `yield_now` calls injected between the cache lookup and the cache insert
+  pub fn set_cache_gap_yields(n: usize) {
+    GAP_YIELDS.store(n, Ordering::Relaxed);
+  }
+
+  /// empty the lunar month cache and zero the counters (a poisoned lock is reported, not cleared)
+  pub fn lunar_month_cache_reset() {
+    if let Ok(mut map) = LUNAR_MONTH_CACHE.lock() {
+      map.clear();
+    }
+    HITS.store(0, Ordering::Relaxed);
+    MISSES.store(0, Ordering::Relaxed);
+  }
+
+  /// (entries, hits, misses, lock poisoned)
+  pub fn lunar_month_cache_stats() -> (usize, u64, u64, bool) {
+    let (len, poisoned) = match LUNAR_MONTH_CACHE.lock() {
+      Ok(map) => (map.len(), false),
+      Err(e) => (e.into_inner().len(), true),
+    };
+    (len, HITS.load(Ordering::Relaxed), MISSES.load(Ordering::Relaxed), poisoned)
+  }
+
+  /// sorted keys currently memoised
+  pub fn lunar_month_cache_keys() -> Vec<String> {
+    let mut keys: Vec<String> = match LUNAR_MONTH_CACHE.lock() {
+      Ok(map) => map.keys().cloned().collect(),
+      Err(e) => e.into_inner().keys().cloned().collect(),
+    };
+    keys.sort();
+    keys
+  }
+
+  pub fn eight_char_provider_poisoned() -> bool {
+    EIGHT_CHAR_PROVIDER.is_poisoned()
+  }
+
+  /// 0 = DefaultEightCharProvider, 1 = LunarSect2EightCharProvider
+  pub fn set_eight_char_provider(kind: usize) {
+    let mut provider = EIGHT_CHAR_PROVIDER.lock().unwrap_or_else(|e| e.into_inner());
+    if kind == 1 {
+      *provider = Box::new(LunarSect2EightCharProvider::new());
+    } else {
+      *provider = Box::new(DefaultEightCharProvider::new());
+    }
+  }
+}
 
 #[cfg(test)]
 mod tests {
